@@ -147,14 +147,15 @@ func (b *Built) ref3(n *Node, p vec3) (float64, bool) {
 	k2 := func(i int, q vec2) (float64, bool) { return b.Ref2(n.K[i], q) }
 	switch n.Op {
 	case "union3":
+		// every operand is visited even when one of them is on an unstable seam, so that traces of
+		// different points have the same shape
 		m := refMin(n.S, first(P))
 		d, ok := k3(0, p)
-		for i := 1; i < len(n.K) && ok; i++ {
+		for i := 1; i < len(n.K); i++ {
 			x, ok2 := k3(i, p)
-			if !ok2 {
-				return 0, false
-			}
-			d, ok = m(d, x)
+			var ok3 bool
+			d, ok3 = m(d, x)
+			ok = ok && ok2 && ok3
 		}
 		return d, ok
 	case "diff3":
@@ -199,19 +200,18 @@ func (b *Built) ref3(n *Node, p vec3) (float64, bool) {
 		}
 		return k3(0, q)
 	case "array3":
+		allOK := true
 		d := math.Inf(1)
 		for i := 0; i < n.I[0]; i++ {
 			for j := 0; j < n.I[1]; j++ {
 				for k := 0; k < n.I[2]; k++ {
 					x, ok := k3(0, vec3{p[0] - float64(i)*P[0], p[1] - float64(j)*P[1], p[2] - float64(k)*P[2]})
-					if !ok {
-						return 0, false
-					}
+					allOK = allOK && ok
 					d = math.Min(d, x)
 				}
 			}
 		}
-		return d, true
+		return d, allOK
 	case "rotcopy3":
 		theta := 2 * math.Pi / float64(n.I[0])
 		r := math.Hypot(p[0], p[1])
@@ -219,16 +219,15 @@ func (b *Built) ref3(n *Node, p vec3) (float64, bool) {
 		v, ok := k3(0, vec3{r * math.Cos(f), r * math.Sin(f), p[2]})
 		return v, ok && (stable || r == 0)
 	case "rotunion3":
+		allOK := true
 		d := math.Inf(1)
 		for i := 0; i < n.I[0]; i++ {
 			q := rot2(vec2{p[0], p[1]}, -float64(i)*P[0])
 			x, ok := k3(0, vec3{q[0], q[1], p[2]})
-			if !ok {
-				return 0, false
-			}
+			allOK = allOK && ok
 			d = math.Min(d, x)
 		}
-		return d, true
+		return d, allOK
 	case "extrude":
 		f, ok := k2(0, vec2{p[0], p[1]})
 		return math.Max(f, math.Abs(p[2])-P[0]/2), ok
@@ -279,16 +278,16 @@ func (b *Built) ref3(n *Node, p vec3) (float64, bool) {
 		}
 		return math.Max(a, w), ok
 	case "multi3":
+		allOK := true
 		d := math.Inf(1)
 		for i := 0; i+2 < len(P); i += 3 {
 			x, ok := k3(0, vec3{p[0] - P[i], p[1] - P[i+1], p[2] - P[i+2]})
-			if !ok {
-				return 0, false
-			}
+			allOK = allOK && ok
 			d = math.Min(d, x)
 		}
-		return d, true
+		return d, allOK
 	case "lineof3":
+		allOK := true
 		d := math.Inf(1)
 		m := float64(len(n.S))
 		for i, c := range n.S {
@@ -297,13 +296,12 @@ func (b *Built) ref3(n *Node, p vec3) (float64, bool) {
 			}
 			f := float64(i) / m
 			x, ok := k3(0, vec3{p[0] - (P[0] + f*(P[3]-P[0])), p[1] - (P[1] + f*(P[4]-P[1])), p[2] - (P[2] + f*(P[5]-P[2]))})
-			if !ok {
-				return 0, false
-			}
+			allOK = allOK && ok
 			d = math.Min(d, x)
 		}
-		return d, true
+		return d, allOK
 	case "orient3":
+		allOK := true
 		// each copy is the operand rotated by the minimal rotation taking the base direction onto d
 		base := unit3(vec3{P[0], P[1], P[2]})
 		d := math.Inf(1)
@@ -315,12 +313,10 @@ func (b *Built) ref3(n *Node, p vec3) (float64, bool) {
 				q = rodrigues(p, unit3(cr), -math.Atan2(norm3(cr), dot3(base, dir)))
 			}
 			x, ok := k3(0, q)
-			if !ok {
-				return 0, false
-			}
+			allOK = allOK && ok
 			d = math.Min(d, x)
 		}
-		return d, true
+		return d, allOK
 	case "screw":
 		// P: length taper pitch ; I[0]: starts. Right-handed for starts>0.
 		r := math.Hypot(p[0], p[1])
@@ -397,14 +393,15 @@ func (b *Built) ref2(n *Node, p vec2) (float64, bool) {
 	k2 := func(i int, q vec2) (float64, bool) { return b.Ref2(n.K[i], q) }
 	switch n.Op {
 	case "union2":
+		// every operand is visited even when one of them is on an unstable seam, so that traces of
+		// different points have the same shape
 		m := refMin(n.S, first(P))
 		d, ok := k2(0, p)
-		for i := 1; i < len(n.K) && ok; i++ {
+		for i := 1; i < len(n.K); i++ {
 			x, ok2 := k2(i, p)
-			if !ok2 {
-				return 0, false
-			}
-			d, ok = m(d, x)
+			var ok3 bool
+			d, ok3 = m(d, x)
+			ok = ok && ok2 && ok3
 		}
 		return d, ok
 	case "diff2":
@@ -445,17 +442,16 @@ func (b *Built) ref2(n *Node, p vec2) (float64, bool) {
 		hx, hy := math.Abs(P[0])/2, math.Abs(P[1])/2
 		return k2(0, vec2{p[0] - clamp(p[0], -hx, hx), p[1] - clamp(p[1], -hy, hy)})
 	case "array2":
+		allOK := true
 		d := math.Inf(1)
 		for i := 0; i < n.I[0]; i++ {
 			for j := 0; j < n.I[1]; j++ {
 				x, ok := k2(0, vec2{p[0] - float64(i)*P[0], p[1] - float64(j)*P[1]})
-				if !ok {
-					return 0, false
-				}
+				allOK = allOK && ok
 				d = math.Min(d, x)
 			}
 		}
-		return d, true
+		return d, allOK
 	case "rotcopy2":
 		theta := 2 * math.Pi / float64(n.I[0])
 		r := math.Hypot(p[0], p[1])
@@ -463,15 +459,14 @@ func (b *Built) ref2(n *Node, p vec2) (float64, bool) {
 		v, ok := k2(0, vec2{r * math.Cos(f), r * math.Sin(f)})
 		return v, ok && (stable || r == 0)
 	case "rotunion2":
+		allOK := true
 		d := math.Inf(1)
 		for i := 0; i < n.I[0]; i++ {
 			x, ok := k2(0, rot2(p, -float64(i)*P[0]))
-			if !ok {
-				return 0, false
-			}
+			allOK = allOK && ok
 			d = math.Min(d, x)
 		}
-		return d, true
+		return d, allOK
 	case "slice2":
 		fr, err := b.sliceFrame(n)
 		if err != nil {
@@ -482,16 +477,16 @@ func (b *Built) ref2(n *Node, p vec2) (float64, bool) {
 		q := add3(vec3{P[0], P[1], P[2]}, add3(mul3(fr.e1, s), mul3(fr.e2, t)))
 		return b.Ref3(n.K[0], q)
 	case "multi2":
+		allOK := true
 		d := math.Inf(1)
 		for i := 0; i+1 < len(P); i += 2 {
 			x, ok := k2(0, vec2{p[0] - P[i], p[1] - P[i+1]})
-			if !ok {
-				return 0, false
-			}
+			allOK = allOK && ok
 			d = math.Min(d, x)
 		}
-		return d, true
+		return d, allOK
 	case "lineof2":
+		allOK := true
 		d := math.Inf(1)
 		m := float64(len(n.S))
 		for i, c := range n.S {
@@ -500,12 +495,10 @@ func (b *Built) ref2(n *Node, p vec2) (float64, bool) {
 			}
 			f := float64(i) / m
 			x, ok := k2(0, vec2{p[0] - (P[0] + f*(P[2]-P[0])), p[1] - (P[1] + f*(P[3]-P[1]))})
-			if !ok {
-				return 0, false
-			}
+			allOK = allOK && ok
 			d = math.Min(d, x)
 		}
-		return d, true
+		return d, allOK
 	case "cache2":
 		return k2(0, p)
 	case "center2":
